@@ -2,9 +2,19 @@ package server
 
 // ---- C02: no request fails while a service is redeployed (T2) ----
 
+// HarnessRedeployTrafficDirected: the request is descheduled right after it obtained its Service (the one the redeploy
+// replaces) and resumes when the replaced target has entered the draining state (the drain is suspended there): the
+// known stale-Service finding in its C02 form, a proxy 503 during a redeploy between two healthy target sets.
+func HarnessRedeployTrafficDirected() {
+	vDirected = true
+	vHoldAfterLookup = true
+	vSuspendDrain = true
+	HarnessRedeployTraffic()
+}
+
 func HarnessRedeployTraffic() {
 	vT2(vParam("preemptions", 1), vParam("firings", 10))
-	if vParam("policies", 2) == 2 {
+	if !vDirected && vParam("policies", 2) == 2 {
 		// both default scheduling policies (earliest-started first / latest-started first) are explored
 		vSchedPolicy(vChoose("sched_policy", 2))
 	}
@@ -37,15 +47,22 @@ func HarnessRedeployTraffic() {
 		vAssume(svcTime < drainTimeout) // requests in flight finish within the drain timeout
 		// (some clients merely offer a protocol upgrade that never happens: still an ordinary request)
 		vProxyPlans[c] = &vProxyPlan{service: svcTime, upgradeHeader: vChoose("upgrade_header"+vItoa(c), 2) == 1}
+		if vDirected {
+			vAssume(arrival == 0)
+		}
 		go func() {
 			vArriveAfter(arrival)
 			vDoRequest(root, c, "h", "/")
 			done++
 		}()
 	}
+	if vDirected {
+		vBlockUntil(func() bool { return vHeld == C })
+	}
 	err := router.DeployService("svc", names, ServiceOptions{Hosts: []string{"h"}}, topts, deployTimeout, drainTimeout)
 	vEmit(vEvent{kind: "cmd_return", ok: err == nil})
 	vCmdReturned = true
+	vRelease = true
 	vBlockUntil(func() bool { return done == C })
 	vNote(vTraceString())
 
@@ -58,9 +75,20 @@ func HarnessRedeployTraffic() {
 				fromNew = true
 			}
 		}
-		vAssert(res.status == 200 && (fromOld || fromNew), "redeploy: every request is answered by a target of the old or the new set, never by a proxy error")
+		// a request that obtained the Service object the redeploy replaces and reaches its target while that is being drained
+		// (history class of the known finding: lookup(req) < swap < drain_begin(old target))
+		stale := false
+		if li, si, di := vIndexOf("lookup", c), vIndexOf("swap", -1), vIndexOf("drain_begin", -1); li >= 0 && si > li && di > si {
+			got, _ := vTrace[li].obj.(*Service)
+			stale = got != nil && got != router.serviceForName("svc")
+		}
+		if res.status == 503 && stale && vIndexOf("drain_begin", -1) >= 0 {
+			vAssert(false, "redeploy: every request is answered by a target of the old or the new set, never by a proxy error [request that looked up the service before the swap meets the draining target]")
+		} else {
+			vAssert(res.status == 200 && (fromOld || fromNew), "redeploy: every request is answered by a target of the old or the new set, never by a proxy error")
+		}
 	}
-	vCover(err == nil, "successful redeploy reachable")
-	vCover(err == nil && vClientResults[0].body == "FROM[new0:80]", "served by new target reachable")
-	vCover(vClientResults[0].body == "FROM[old:80]", "served by old target reachable")
+	vCover(vDirected || err == nil, "successful redeploy reachable")
+	vCover(vDirected || (err == nil && vClientResults[0].body == "FROM[new0:80]"), "served by new target reachable")
+	vCover(vDirected || vClientResults[0].body == "FROM[old:80]", "served by old target reachable")
 }
